@@ -95,9 +95,13 @@ func gen(t *rapid.T) Case {
 	if rapid.Bool().Draw(t, "atLeast4") && n < 4 {
 		n = rapid.IntRange(4, 16).Draw(t, "n4")
 	}
+	kind := rapid.SampledFrom([]int{murmurUint, murmurUint, murmurUint, shaBig, shaUint, murmurBig}).Draw(t, "kind")
+	if (kind == shaBig || kind == murmurBig) && n > 10 {
+		n = 10 // big.Float scoring is an order of magnitude slower; keeps the per-case cost bounded
+	}
 	labels := rapid.SliceOfNDistinct(rapid.Custom(genLabel), n+1, n+1, rapid.ID[string]).Draw(t, "labels")
 	equalWeights := rapid.IntRange(0, 3).Draw(t, "equalWeights") == 0
-	c := Case{Kind: rapid.SampledFrom([]int{murmurUint, murmurUint, murmurUint, shaBig, shaUint, murmurBig}).Draw(t, "kind")}
+	c := Case{Kind: kind}
 	for i := 0; i < n; i++ {
 		w := 100
 		if !equalWeights {
@@ -239,14 +243,21 @@ type stats struct {
 	undefined int
 }
 
-func labelsOf(nodes []*hrw.RendezvousHashNode) []string {
+// idCache maps (label, weight) to the "label/weight" identity used in lists and messages.
+type idCache map[string]map[int]string
+
+func (ic idCache) labelsOf(nodes []*hrw.RendezvousHashNode) []string {
 	out := make([]string, len(nodes))
 	for i, n := range nodes {
 		if n == nil {
 			out[i] = "<nil>"
-		} else {
-			out[i] = fmt.Sprintf("%s/%d", n.Label, n.Weight)
+			continue
 		}
+		if s, ok := ic[n.Label][n.Weight]; ok {
+			out[i] = s
+			continue
+		}
+		out[i] = fmt.Sprintf("%s/%d", n.Label, n.Weight)
 	}
 	return out
 }
@@ -283,6 +294,11 @@ func run(c Case) pbt.Verdict {
 		ids[i] = id(nd)
 	}
 	extraID := id(c.Extra)
+	ic := idCache{} // read-only once the workers start
+	for _, nd := range append(append([]Node{}, c.Nodes...), c.Extra) {
+		ic[nd.Label] = map[int]string{nd.Weight: id(nd)}
+	}
+	labelsOf := ic.labelsOf
 
 	fails := make([]*failure, workers)
 	sts := make([]stats, workers)
@@ -307,7 +323,11 @@ func run(c Case) pbt.Verdict {
 				a.AddNode(nd.Label, nd.Weight)
 				d.AddNode(nd.Label, nd.Weight)
 			}
-			for _, i := range c.Order2 {
+			// b: the same nodes in the second insertion order, with the new node inserted in the middle.
+			for k, i := range c.Order2 {
+				if k == n/2 {
+					b.AddNode(c.Extra.Label, c.Extra.Weight)
+				}
 				b.AddNode(c.Nodes[i].Label, c.Nodes[i].Weight)
 			}
 
@@ -323,7 +343,17 @@ func run(c Case) pbt.Verdict {
 			}
 			ref := make([]rs, n)
 
-			// Phase 1: base order against the reference, insertion independence, truncation.
+			without := func(list []string, x string) []string {
+				out := make([]string, 0, len(list))
+				for _, l := range list {
+					if l != x {
+						out = append(out, l)
+					}
+				}
+				return out
+			}
+
+			// Phase 1: base order against the reference, insertion independence + node addition, truncation.
 			for _, ki := range mine {
 				cur = ki
 				key := keys[ki]
@@ -386,10 +416,21 @@ func run(c Case) pbt.Verdict {
 						return
 					}
 				}
-				lb := labelsOf(b.GetOrderedNodes(key, n))
+				// One lookup judges two claims: a hash holding the same nodes in another insertion order
+				// plus one new node must return the same list with only the new node inserted.
+				lb := labelsOf(b.GetOrderedNodes(key, n+1))
 				st.lists++
-				if !equal(got, lb) {
-					fail(ki, "ordered list depends on insertion order: %v vs %v (second insertion order %v)", got, lb, c.Order2)
+				if len(lb) != n+1 || !equal(without(lb, extraID), got) {
+					// Tell the two claims apart for the report.
+					b0 := newHash(c.Kind)
+					for _, i := range c.Order2 {
+						b0.AddNode(c.Nodes[i].Label, c.Nodes[i].Weight)
+					}
+					if l0 := labelsOf(b0.GetOrderedNodes(key, n)); !equal(l0, got) {
+						fail(ki, "ordered list depends on insertion order: %v vs %v (second insertion order %v)", got, l0, c.Order2)
+						return
+					}
+					fail(ki, "adding node %s did more than insert it: without it %v, with it %v", extraID, got, lb)
 					return
 				}
 				base[ki] = got
@@ -409,16 +450,6 @@ func run(c Case) pbt.Verdict {
 				}
 			}
 
-			without := func(list []string, x string) []string {
-				out := make([]string, 0, len(list))
-				for _, l := range list {
-					if l != x {
-						out = append(out, l)
-					}
-				}
-				return out
-			}
-
 			// Phase 2: remove one drawn node, all keys.
 			rm := c.Nodes[c.Remove]
 			a.RemoveNode(rm.Label)
@@ -435,25 +466,8 @@ func run(c Case) pbt.Verdict {
 					return
 				}
 			}
-			a.AddNode(rm.Label, rm.Weight)
 
-			// Phase 3: add one new node, all keys (the removed node was re-added last, a third insertion order).
-			a.AddNode(c.Extra.Label, c.Extra.Weight)
-			for _, ki := range mine {
-				cur = ki
-				bl, ok := base[ki]
-				if !ok {
-					continue
-				}
-				got := labelsOf(a.GetOrderedNodes(keys[ki], n+1))
-				st.lists++
-				if len(got) != n+1 || !equal(without(got, extraID), bl) {
-					fail(ki, "adding node %s did more than insert it: before %v, after %v", extraID, bl, got)
-					return
-				}
-			}
-
-			// Phase 4: every single-node removal and re-addition, on the key subset.
+			// Phase 3: every single-node removal and re-addition, on the key subset.
 			for x := 0; x < n; x++ {
 				d.RemoveNode(c.Nodes[x].Label)
 				if len(d.Nodes) != n-1 {
@@ -557,6 +571,7 @@ func equal(a, b []string) bool {
 // SFCase is a batch of 64-bit hash values for UInt64ToFloat64.
 type SFCase struct {
 	Values []uint64 `json:"values"`
+	Dirty  []byte   `json:"dirty"` // bytes already written to the hasher handed in (Score hands in the hasher it used for key||label)
 }
 
 func genSF(t *rapid.T) SFCase {
@@ -572,7 +587,7 @@ func genSF(t *rapid.T) SFCase {
 			return rapid.Uint64().Draw(t, "any")
 		}
 	}), 1, 256).Draw(t, "values")
-	return SFCase{v}
+	return SFCase{v, rapid.SliceOfN(rapid.Byte(), 0, 24).Draw(t, "dirty")}
 }
 
 func runSF(c SFCase) pbt.Verdict {
@@ -590,7 +605,9 @@ func runSF(c SFCase) pbt.Verdict {
 			continue // the re-hash is zero as well (probability 2^-53): the documentation promises nothing
 		}
 		want := float64(v) / float64(uint64(1)<<53)
-		got := hrw.UInt64ToFloat64(b[:], max, murmur3.New64())
+		h := murmur3.New64()
+		h.Write(c.Dirty)
+		got := hrw.UInt64ToFloat64(b[:], max, h)
 		if got != want {
 			return pbt.Fail("UInt64ToFloat64 differs from its documented value (input %#016x: got %v, want %v)", x, got, want)
 		}
@@ -602,6 +619,9 @@ func runSF(c SFCase) pbt.Verdict {
 	if zeros > 0 {
 		cls = append(cls, "has-zero-low-bits")
 	}
+	if len(c.Dirty) > 0 {
+		cls = append(cls, "used-hasher")
+	}
 	return pbt.Verdict{NonTrivial: zeros > 0, Classes: cls, Evals: len(c.Values)}
 }
 
@@ -611,9 +631,9 @@ func TestProp(t *testing.T) {
 		Rule: "part order: generated node set (1-16 distinct labels, weights 1-1000 or all equal), hash/score pair in {murmur3,sha256}x{UInt64ToFloat64,BigIntToFloat64} (murmur3+UInt64 half of the cases), " +
 			"a second insertion order, a node to remove, a new node to add, 8-48 long hex keys, truncation sizes; for ALL 65536 four-hex-digit keys + the 256 two-digit upper-case keys + the long keys: " +
 			"GetOrderedNodes equals the node set ordered by the harness's own reference score (keys where two reference scores are within 1e-6 relative are skipped and counted), exported Score values strictly descend and match the reference, " +
-			"both insertion orders give the same list, removing the drawn node only deletes it, adding the new node only inserts it; on a subset (every 64th shard, the two-digit keys, the long keys) " +
-			"truncation to n and EVERY single-node removal and re-addition are checked; evaluations = ordered lists judged; non-trivial = at least 2 nodes; distinct = distinct (hash pair, node set). " +
-			"part scorefunc: batches of 64-bit values concentrated on k<<53; UInt64ToFloat64 with a murmur3 re-hasher must equal the documented value and lie in (0,1); evaluations = values",
+			"a second hash holding the nodes in the other insertion order plus the new node returns the same list with only the new node inserted, RemoveNode of the drawn node only deletes it; on a subset (every 64th shard, the two-digit keys, the long keys) " +
+			"truncation to n and EVERY single-node RemoveNode and re-AddNode are checked; evaluations = ordered lists judged; non-trivial = at least 2 nodes; distinct = distinct (hash pair, node set). " +
+			"part scorefunc: batches of 64-bit values concentrated on k<<53; UInt64ToFloat64 with a murmur3 re-hasher that already absorbed 0-24 bytes must equal the documented value and lie in (0,1); evaluations = values",
 		Assumptions: []string{
 			"reference score written from the documentation of lib/hrw (weighted rendezvous hashing: -weight/ln(u), u derived from hash(key bytes||label)) on spaolacci/murmur3 and crypto/sha256 directly",
 			"node labels are distinct, weights are positive, keys are even-length hex strings (what hex.DecodeString accepts)",
